@@ -53,8 +53,10 @@ class MayKnobs(nested.NKnobs):
         self.p_raise_other = 0.02     # per scripted invocation of any other callback but finalize
         self.p_on_exception = 0.5
         self.p_handler_raises = 0.06
-        self.p_cmd = 0.06             # per scripted invocation: the callback issues a may_ / trigger itself
+        self.p_cmd = 0.09             # per scripted invocation: the callback issues a may_ / trigger itself
         self.cmd_budget = 3
+        self.cmd_kinds = (MAY, MAY, TRIGGER)
+        self.local_boost = 1          # factor on p_cmd for callbacks of locally declared transitions
         self.max_handlers = 2
         self.single_stage = False     # truncate every callback stage to one callback (async classes comparable)
         self.deterministic = False
@@ -99,9 +101,6 @@ def gen_may(rng, kn):
     # script: conditions (deterministic or per invocation), raises, re-entrant commands
     cond_cbs = set(c for _s, _e, _i, t in d.all_trans() for c, _tg in t['conds'])
     budget = [kn.cmd_budget]
-    root_cbs = set(c for _e, ts in d.events for t in ts
-                   for c in list(t['prepare']) + [x for x, _tg in t['conds']] + list(t['before']) + list(t['after']))
-    cmd_mode = rng.choice(('root', 'may'))
     if kn.deterministic:
         d.script = {}
         for c in sorted(cond_cbs):
@@ -109,7 +108,12 @@ def gen_may(rng, kn):
                 for k in range(DET_DEPTH):
                     d.script[(c, k)] = ([], ('ret', False))
         return d
-    for c in sorted(d.cb_slot):
+    # callbacks of locally declared transitions run while the machine is scoped into the declaring state
+    local_cbs = set(c for scope, _e, _i, t in d.all_trans() if scope
+                    for c in list(t['prepare']) + [x for x, _tg in t['conds']] + list(t['before']) + list(t['after']))
+    order = sorted(d.cb_slot)
+    rng.shuffle(order)      # the command budget must not be used up by the callbacks with the lowest ids (the states')
+    for c in order:
         slot = d.cb_slot[c]
         for k in range(kn.script_depth):
             cmds, out = d.script.get((c, k), ([], ('ret', True)))
@@ -121,19 +125,12 @@ def gen_may(rng, kn):
             elif slot not in EVAL_SLOTS and slot not in (SLOT['finalize_event'], SLOT['on_exception']) \
                     and rng.random() < kn.p_raise_other:
                 out = ('raise', 3, 8)
-            if budget[0] > 0 and slot != SLOT['finalize_event'] and (cmd_mode == 'may' or c in root_cbs) \
-                    and rng.random() < kn.p_cmd * (3 if cmd_mode == 'root' else 1):
-                # re-entrant TRIGGER commands must only be issued while the machine is in its own scope and no on_enter /
-                # on_exit callback is running.  Elsewhere the engine is not re-entrant for triggers, for reasons that have
-                # nothing to do with may_ and are not modelled: while an on_enter / on_exit callback runs,
-                # NestedState._scope changes the `name` of that state object (a re-entrant trigger that re-enters it builds
-                # its tree from `state.name`), and `_trigger_event` calls `_check_event_result` outside its `with self():`
-                # block, i.e. in the scope of the state whose local transition is being evaluated.  Hence two kinds of
-                # descriptions: 'root' — commands (may_ and trigger) only from the prepare / conditions / before / after
-                # callbacks of transitions declared on the machine (these run in the machine's scope, also when the
-                # evaluating may_ / trigger was itself issued by such a callback); 'may' — may_ commands from every
-                # callback, no trigger commands.
-                kind = rng.choice((MAY, TRIGGER)) if cmd_mode == 'root' else MAY
+            if budget[0] > 0 and slot != SLOT['finalize_event'] and rng.random() < kn.p_cmd * (kn.local_boost if c in local_cbs else 1):
+                # re-entrant may_ AND trigger commands from every callback (also on_enter / on_exit callbacks and callbacks
+                # of locally declared transitions, which run while the machine is scoped into a state): since the repairs
+                # 4b06f60 (`_enter_nested` files a state under its plain name) and 84867c8 (`_check_event_result` inside
+                # `with self():`) the engine is re-entrant for triggers and the scope-free model agrees with it
+                kind = rng.choice(kn.cmd_kinds)
                 ev = rng.choice(known or [0]) if rng.random() > 0.05 else unknown
                 cmds.append((kind, 0, ev))
                 budget[0] -= 1
@@ -532,6 +529,14 @@ def stats(st, d, run, deterministic, ntw, ntrue):
                 bump('nested_outcomes', who + ':' + ('true' if it[2] else 'false'))
             else:
                 bump('nested_outcomes', who + ':raised:' + common.EXC_NAMES[min(it[2], 6)])
+    stack = []
+    for it in run.items:
+        if it[0] == 'call':
+            stack.append(it[1])
+        elif it[0] == 'done' and stack:
+            stack.pop()
+        elif it[0] == 'api' and stack:
+            bump('nested_reentrant_from', ('may' if it[1] == MAY else 'trigger') + '@' + common.SLOTS[stack[-1]])
     bump('nested_raising_callbacks', 'n', sum(1 for it in run.items if it[0] == 'done' and it[2] == 1))
     bump('nested_handler_calls', 'n', sum(1 for it in run.items if it[0] == 'call' and it[1] == SLOT['on_exception']))
     if deterministic:
@@ -545,6 +550,11 @@ STREAMS = {
     'nested-model-small': (lambda: MayKnobs(max_states=6, max_depth=3, max_branch=3, p_cmd=0.1), False),
     'nested-model-parallel': (lambda: MayKnobs(max_roots=1, p_compound=0.9, p_parallel=0.85, p_noinit=0.0, p_deep_initial=0.0,
                                                max_states=8, max_depth=3), False),
+    # many re-entrant calls, mostly triggers, many locally declared transitions: calls issued while the machine is scoped
+    # into a state / while an on_enter or on_exit callback runs
+    'nested-model-reentrant': (lambda: MayKnobs(p_cmd=0.3, cmd_budget=6, cmd_kinds=(MAY, TRIGGER, TRIGGER), p_local=0.6,
+                                                max_states=7, max_depth=3, p_raise=0.03, p_unknown_event=0.1, max_trans=2, p_ignore=0.05, local_boost=3,
+                                                hist_kinds=(MAY, TRIGGER, TRIGGER)), False),
     # every callback stage holds at most one callback: HierarchicalAsyncMachine is compared with the model as well
     'nested-model-async': (lambda: MayKnobs(single_stage=True, max_handlers=1, p_parallel=0.6), False),
     'nested-twin-parallel': (lambda: MayKnobs(deterministic=True, p_bad_dest=0.0, p_on_exception=0.0, max_history=3, p_queued=0.0,
